@@ -118,7 +118,8 @@ class PublicKeyX509(PublicKeyX509Base):
         is not a certificate would otherwise be accepted and fail later, when it is inspected or serialised."""
         try:
             asn1crypto.x509.Certificate.load(bytes(der), strict=True).native  # pylint: disable=expression-not-assigned
-        except (ValueError, TypeError, KeyError) as e:
+        except (ValueError, TypeError, KeyError, IndexError, AttributeError, OverflowError) as e:
+            # whatever asn1crypto raises for a structure that is not a well-formed certificate
             six.raise_from(InvalidValue(bytes(der), cls, 'certificate'), e)
 
         return cls.from_der(bytes(der))
